@@ -1,2 +1,62 @@
-(* Props/C07.v — placeholder until Proofs/RecurP.v lands; replaced below in this round. *)
-From CG Require Import Spec.RecurSpec.
+(* Props/C08.v — C08: recurring patterns answer every finite window, without gaps, repeats or
+   drift.  Only statements, each closed by an existing lemma and followed by Print Assumptions. *)
+From CG Require Import Model.Civil Proofs.CivilP.
+
+Theorem C08_civil_roundtrip : forall z,
+  let '(y, m, d) := civil_from_days z in days_from_civil y m d = z /\ valid_date y m d = true.
+Proof. exact civil_roundtrip. Qed.
+Print Assumptions C08_civil_roundtrip.
+
+Theorem C08_month_length : forall y m, 28 <= dim y m <= 31.
+Proof. exact dim_bounds. Qed.
+Print Assumptions C08_month_length.
+
+Theorem C08_year_length : forall y, 365 <= diy y <= 366.
+Proof. exact diy_bounds. Qed.
+Print Assumptions C08_year_length.
+
+From CG Require Import Model.Recur Spec.RecurSpec Proofs.RecurP.
+From Coq Require Import Sorting.Sorted.
+
+(* interval > 1 cadences keep their phase for windows arbitrarily far from the anchor *)
+Theorem C08_anchor_phase : forall (r : rule) (sd a : Z),
+  0 < r_interval r ->
+  safe_anchor r sd = Some a ->
+  (period_of (r_freq r) (cdate_of a) - period_of (r_freq r) (cdate_of (base_day r))) mod r_interval r = 0.
+Proof. exact anchor_phase. Qed.
+Print Assumptions C08_anchor_phase.
+
+Theorem C08_anchor_not_late : forall (r : rule) (sd a : Z),
+  0 < r_interval r ->
+  safe_anchor r sd = Some a ->
+  period_of (r_freq r) (cdate_of a) <= period_of (r_freq r) (cdate_of sd).
+Proof. exact anchor_not_late_period. Qed.
+Print Assumptions C08_anchor_not_late.
+
+(* the chunk loop of _fetch_reverse, abstractly: whatever ascending series of positive-length
+   occurrences the forward fetch answers from, whatever the chunk size > 0 and however the
+   durations compare with it, paging yields the forward answer reversed — every occurrence
+   exactly once, newest first *)
+Theorem C08_pager_exactly_once :
+  forall (fwd : Z -> Z -> list ivl) (chunk : Z) (occs : list ivl),
+    (forall a b, fwd a b = filter (fun i => (a <? fend i) && (fstart i <=? b)) occs) ->
+    StronglySorted (fun x y => fstart x <= fstart y) occs ->
+    Forall (fun i => fstart i < fend i) occs ->
+    0 < chunk ->
+    forall (fuel : nat) (a b : Z),
+      a < b -> b - a <= Z.of_nat fuel * chunk ->
+      pager fwd chunk fuel a b b = Some (rev (fwd a b)).
+Proof. exact pager_exactly_once. Qed.
+Print Assumptions C08_pager_exactly_once.
+
+(* Model/Recur.v's reverse fetch is that loop: if fetch_forward answers every window from one
+   ascending series, fetch_reverse returns the forward answer reversed *)
+Theorem C08_reverse_is_rev_forward : forall (r : rule) (occs : list ivl),
+  (forall a b, fetch_forward r a b =
+               Ok (filter (fun i => (a <? fend i) && (fstart i <=? b)) occs)) ->
+  StronglySorted (fun x y => fstart x <= fstart y) occs ->
+  Forall (fun i => fstart i < fend i) occs ->
+  forall a b, a < b ->
+    fetch_reverse r a b = Ok (rev (filter (fun i => (a <? fend i) && (fstart i <=? b)) occs)).
+Proof. exact fetch_reverse_is_rev_forward. Qed.
+Print Assumptions C08_reverse_is_rev_forward.
